@@ -235,7 +235,8 @@ fn magic_level(tr: Tr, field_name: &str) -> Level {
         Tr::Field => &["ident", "vis", "ty"],
         Tr::Variant => &["ident", "discriminant", "fields"],
         Tr::TypeParam => &["ident", "bounds", "default"],
-        Tr::Attributes => &["ident"],
+        // FromAttributes passes no element part on: `ident` is an ordinary field there
+        Tr::Attributes => &[],
     };
     if ignored.contains(&field_name) {
         Level::Ignored
